@@ -5197,8 +5197,15 @@ impl<'a> CodeGenerator<'a> {
                 }
 
                 if !list_decorator {
+                    // The record is rebuilt under the index its constructor is built with
+                    // (its `@tag` if any), like every other site that constructs it.
+                    let constr_index =
+                        get_constr_index_variant(&data_type, &data_type.constructors[0].name)
+                            .map(|(index, _)| index)
+                            .unwrap_or(0);
+
                     term = Term::constr_data()
-                        .apply(Term::integer(0.into()))
+                        .apply(Term::integer(constr_index.into()))
                         .apply(term);
                 }
 
